@@ -1204,6 +1204,20 @@ impl<'s> Semantics<'s> {
 
             // get started
             let dst = self.branch_target(block, &detail.operands[0])?;
+            // the target is read before the return address is pushed: a stack-pointer target
+            // (`call rsp`) must not see the decremented value
+            let op0 = &detail.operands[0];
+            let dst = if op0.type_ == x86_op_type::X86_OP_REG
+                && matches!(
+                    op0.reg(),
+                    x86_reg::X86_REG_RSP | x86_reg::X86_REG_ESP | x86_reg::X86_REG_SP
+                ) {
+                let saved = self.temp(0, dst.bits());
+                block.assign(saved.clone(), dst);
+                saved.into()
+            } else {
+                dst
+            };
 
             let ret_addr = self.instruction().address + self.instruction().size as u64;
 
